@@ -438,13 +438,25 @@ Definition wpath (w : wmap) (p : path) : kv :=
   | PCol c => match wget w c with Some (WV v) => v | _ => KNull end
   | PQual a c => match wget w a with Some (WR r) => getnil r c | _ => KNull end
   end.
-Inductive wcond := WTrue | WStrEq (p : path) (s : bytes) | WIsNull (p : path) | WNotNull (p : path).
-Definition weval (w : wmap) (c : wcond) : bool :=
+(* WHERE: comparisons of one column of the ENRICHED row (a stream column written bare or qualified by the
+   FROM alias, a table column qualified by the JOIN alias) with a literal, IS [NOT] NULL, and AND / OR of them *)
+Inductive wcond :=
+| WTrue
+| WStrEq (p : path) (s : bytes)
+| WIsNull (p : path)
+| WNotNull (p : path)
+| WIntGt (p : path) (n : Z)        (* col > n for an integer column *)
+| WAnd (a b : wcond)
+| WOr (a b : wcond).
+Fixpoint weval (w : wmap) (c : wcond) : bool :=
   match c with
   | WTrue => true
   | WStrEq p s => match wpath w p with KStr t => bytes_eqb t s | _ => false end
   | WIsNull p => match wpath w p with KNull => true | _ => false end
   | WNotNull p => match wpath w p with KNull => false | _ => true end
+  | WIntGt p n => match wpath w p with KInt x => Z.ltb n x | _ => false end
+  | WAnd a b => weval w a && weval w b
+  | WOr a b => weval w a || weval w b
   end.
 (* processDirectDataSync after enrichment: WHERE, then the SELECT list ([] = SELECT * ) *)
 Definition project (sel : list (bytes * path)) (wc : wcond) (e : eres) : eres :=
